@@ -1010,7 +1010,7 @@ func build(rng *rand.Rand, id int, stream string, thorough bool) *Scenario {
 		g.queries(pick(3, 5), pick(3, 5), pick(3, 5))
 		return g.sc
 	case "small-levels":
-		ml := []int{0, 1, 2, 3, 4, 5, 8, 12}[rng.Intn(8)]
+		ml := []int{0, 1, 2, 3, 4, 5, 8, 12}[(id/8)%8] // every quick run covers maxLevels 0..5
 		g := newGen(rng, id, stream, ml)
 		n := 2 + rng.Intn(pick(10, 20))
 		for i := 0; i < n; i++ {
